@@ -14,6 +14,8 @@ use serde_json::{json, Value};
 use std::path::{Path, PathBuf};
 use vcore::Monitor;
 
+const WITHIN_EPOCH_STEPS: u64 = 3;
+
 pub const POINTS: [&str; 9] = [
     "certifier:after_multi_signature",
     "certifier:after_certificate_insert",
@@ -30,10 +32,13 @@ fn world_file(dir: &Path) -> PathBuf {
     dir.join("world.json")
 }
 
-async fn persist_world(run: &Run, macro_step: u64, script: u64) -> StdResult<()> {
+async fn persist_world(run: &mut Run, macro_step: u64, script: u64) -> StdResult<()> {
     // written before every tick sequence; crash points are only inside ticks, so the file is
     // always consistent with the in-memory doubles at the time of a crash
-    let tp = run.sim.time_point().await;
+    // (the ticker's time point: epoch / chain point of the chain observer + immutable number of
+    // the immutable file observer; the chain observer's own copy of the immutable number is never
+    // moved by the doubles)
+    let tp = run.sim.observed_time_point().await?;
     let w = json!({
         "epoch": *tp.epoch, "immutable": tp.immutable_file_number,
         "block": *tp.chain_point.block_number, "slot": *tp.chain_point.slot_number,
@@ -41,6 +46,7 @@ async fn persist_world(run: &Run, macro_step: u64, script: u64) -> StdResult<()>
         "k": run.sim.cfg.protocol_parameters.k, "m": run.sim.cfg.protocol_parameters.m, "phi_f": run.sim.cfg.protocol_parameters.phi_f,
         "tx_step": run.sim.cfg.tx_step, "blocks_step": run.sim.cfg.blocks_step,
         "macro_step": macro_step, "script": script,
+        "types": run.sim.cfg.types.iter().map(|d| d.to_string()).collect::<Vec<_>>(),
         "genesis_epochs": run.model.genesis_epochs,
     });
     let tmp = world_file(&run.sim.cfg.data_dir).with_extension("tmp");
@@ -58,7 +64,20 @@ async fn persist_world(run: &Run, macro_step: u64, script: u64) -> StdResult<()>
 /// every signer signs whatever is open (some early => buffered), tick until sealed.
 /// `script` selects deterministic variations.
 pub async fn macro_step(run: &mut Run, n: u64, script: u64, mon: &mut Monitor, hid: &str, check: bool) -> StdResult<()> {
-    macro_step_kind(run, n, script, (n + script) % 6, mon, hid, check).await
+    // with MithrilStakeDistribution alone the only rounds are the epochs' first ones
+    let kind = if run.sim.cfg.types.is_empty() { if n % 2 == 0 { 5 } else { 2 } } else { (n + script) % 6 };
+    macro_step_kind(run, n, script, kind, mon, hid, check).await
+}
+
+/// enabled signed entity types per script: all five / MithrilStakeDistribution + CardanoDatabase /
+/// MithrilStakeDistribution alone (then an epoch has exactly one round: a round lost to a crash
+/// leaves the epoch without certificate)
+pub fn types_of_script(script: u64) -> Vec<SignedEntityTypeDiscriminants> {
+    match script % 3 {
+        0 => sim::all_types(),
+        1 => vec![SignedEntityTypeDiscriminants::CardanoDatabase],
+        _ => vec![],
+    }
 }
 
 pub async fn macro_step_kind(run: &mut Run, n: u64, script: u64, kind: u64, mon: &mut Monitor, hid: &str, check: bool) -> StdResult<()> {
@@ -156,13 +175,14 @@ pub async fn check_invariants(run: &mut Run, mon: &mut Monitor, hid: &str, when:
 /// child, phase 1: fresh start, run the base script (possibly armed => the process aborts)
 pub async fn run_fresh(dir: PathBuf, script: u64, steps: u64, mon: &mut Monitor) -> StdResult<()> {
     let mut rng = mon.rng("c15-script", script);
-    let mut run = Run::start(dir, &mut rng).await?;
+    let mut run = Run::start_with_types(dir, &mut rng, types_of_script(script)).await?;
     let all: Vec<usize> = (0..run.n_signers()).collect();
     let hid = format!("script{script}");
+    mon.count(&format!("base:signed entity types enabled on top of MithrilStakeDistribution: {:?}", run.sim.cfg.types.iter().map(|d| d.to_string()).collect::<Vec<_>>()));
     for ev in [Ev::Tick, Ev::Register { who: all.clone(), label_offset: 0 }, Ev::EpochUp(1)] {
         run.apply(&ev, mon).await?;
     }
-    persist_world(&run, 0, script).await?;
+    persist_world(&mut run, 0, script).await?;
     for ev in [Ev::Tick, Ev::Tick, Ev::Register { who: all.clone(), label_offset: 0 }] {
         run.apply(&ev, mon).await?;
     }
@@ -185,7 +205,8 @@ pub async fn run_resume(dir: PathBuf, mon: &mut Monitor, label: &str, progress_s
     let w: Value = serde_json::from_str(&std::fs::read_to_string(world_file(&dir))?)?;
     let script = w["script"].as_u64().unwrap_or(0);
     let pp = ProtocolParameters { k: w["k"].as_u64().unwrap(), m: w["m"].as_u64().unwrap(), phi_f: w["phi_f"].as_f64().unwrap() };
-    let cfg = sim::SimConfig { data_dir: dir.clone(), protocol_parameters: pp.clone(), tx_step: w["tx_step"].as_u64().unwrap(), blocks_step: w["blocks_step"].as_u64().unwrap() };
+    let cfg = sim::SimConfig { data_dir: dir.clone(), protocol_parameters: pp.clone(), tx_step: w["tx_step"].as_u64().unwrap(), blocks_step: w["blocks_step"].as_u64().unwrap(),
+        types: w["types"].as_array().map(|a| a.iter().filter_map(|x| x.as_str()).filter_map(|x| sim::all_types().into_iter().find(|d| d.to_string() == x)).collect()).unwrap_or_else(sim::all_types) };
     let block = w["block"].as_u64().unwrap();
     let slot = w["slot"].as_u64().unwrap();
     let tp = TimePoint {
@@ -212,6 +233,33 @@ pub async fn run_resume(dir: PathBuf, mon: &mut Monitor, label: &str, progress_s
     // recovery phase: the world stands still (the crash did not make time jump to the next epoch),
     // the aggregator ticks and honest signers (re)sign whatever is open
     macro_step_kind(&mut run, w["macro_step"].as_u64().unwrap_or(0), script, 5, mon, &hid, true).await?;
+    // ---- progress inside the epoch of the restart: new immutable files give new CardanoDatabase
+    // rounds; "later rounds are certified" must not have to wait for the next epoch
+    let mut within_epoch: Option<bool> = None;
+    if run.sim.cfg.types.contains(&SignedEntityTypeDiscriminants::CardanoDatabase) {
+        let mut ok = false;
+        for n in 0..WITHIN_EPOCH_STEPS {
+            macro_step_kind(&mut run, start_step + n, script, 0, mon, &hid, true).await?;
+            let snap = sim::snapshot(&run.sim.db_path())?;
+            run.prev = snap;
+            if run.prev.signed_entities.iter().any(|s| {
+                !arts_before.contains(&format!("{}|{}", s["signed_entity_type_id"], s["beacon"]))
+                    && run.prev.certificates.iter().any(|c| c["certificate_id"].as_str() == s["certificate_id"].as_str())
+            }) {
+                ok = true;
+                break;
+            }
+        }
+        within_epoch = Some(ok);
+        mon.count(if ok { "progress inside the epoch of the restart: yes" } else { "progress inside the epoch of the restart: NO" });
+        if !ok {
+            mon.violation(
+                "C15 no certificate with artifact for a later beacon inside the epoch of the restart",
+                &format!("{label}: after the restart and a recovery phase, {WITHIN_EPOCH_STEPS} new immutable files (each followed by up to 10 ticks, all signers sign whatever is open) produced no new certified artifact although CardanoDatabase is enabled; state {}", run.sim.state()),
+                json!({"history": hid, "log_tail": run.log.iter().rev().take(40).rev().collect::<Vec<_>>()}),
+            );
+        }
+    }
     for n in 0..progress_steps {
         macro_step(&mut run, start_step + n, script, mon, &hid, true).await?;
         let snap = sim::snapshot(&run.sim.db_path())?;
@@ -234,7 +282,7 @@ pub async fn run_resume(dir: PathBuf, mon: &mut Monitor, label: &str, progress_s
         "label": label, "script": script,
         "certificates_at_restart": certs_at_restart, "artifacts_at_restart": arts_at_restart,
         "certificates_at_end": run.prev.certificates.len(), "artifacts_at_end": run.prev.signed_entities.len(),
-        "progressed_after_macro_steps": progressed_at, "state_at_end": run.sim.state(),
+        "progressed_after_macro_steps": progressed_at, "progress_inside_the_epoch_of_the_restart": within_epoch, "state_at_end": run.sim.state(),
     });
     if progressed_at.is_none() {
         mon.violation(
